@@ -183,6 +183,12 @@ pub struct Hk {
     pub probes: BTreeMap<&'static str, u64>,
     pub fault_window: bool,
     pub cb_err_returned: bool,
+    /// depth of simulator-issued calloop API calls (a fault outside of them, during a
+    /// dispatch, hits the post action of the event being processed)
+    pub api_depth: u32,
+    pub fault_in_event: bool,
+    pub pe_calls: u32,
+    pub c08_cells: BTreeMap<String, u64>,
 }
 
 pub struct Sim {
@@ -353,6 +359,9 @@ impl calloop::verif::Sim for Sim {
             hk.fault_window = true;
             if hk.in_dispatch {
                 hk.expected_err = true;
+                if hk.api_depth == 0 {
+                    hk.fault_in_event = true;
+                }
             }
             if hk.record {
                 hk.trace.push(format!("  fault injected at seam {} errno {}", s, errno));
